@@ -78,7 +78,24 @@ func TestCheck(t *testing.T) {
 				return "0.14.1"
 			}},
 			{"0.14.0", func(uint64) string { return "0.14.0" }},
+			// the commitment formula switches on the header's protocol version: versions whose textual order differs
+			// from their numeric order (0.9.x > 0.14.0 as strings), the unversioned era, a four-part version, the last
+			// version line before the switch (versions above the supported maximum 0.14.1 are refused by design)
+			{"0.9.1", func(uint64) string { return "0.9.1" }},
+			{"unversioned", func(uint64) string { return "" }},
+			{"0.13.1.1", func(uint64) string { return "0.13.1.1" }},
+			{"0.13.6", func(uint64) string { return "0.13.6" }},
+			{"0.2.0->0.11.0@1", func(n uint64) string {
+				if n < 1 {
+					return "0.2.0"
+				}
+				return "0.11.0"
+			}},
 		} {
+			depth := ev.Pick(r, 3, 4)
+			if ci >= 3 {
+				depth = ev.Pick(r, 2, 3) // formula sweep: short chains (deploy + write, declare + deploy) are enough
+			}
 			if r.Quick() && ci == 2 {
 				continue
 			}
@@ -87,7 +104,7 @@ func TestCheck(t *testing.T) {
 			}
 			label := vc.name + hist.Backend(newState) + bk.tag
 			st := hist.Explore(hist.Config{
-				NewState: newState, Depth: ev.Pick(r, 3, 4), VersionAt: vc.at, Run: r, Label: label, NoRevert: true, Transform: bk.transform,
+				NewState: newState, Depth: depth, VersionAt: vc.at, Run: r, Label: label, NoRevert: true, Transform: bk.transform,
 				OnStoreFail: func(p *hist.Node, nm chain.Named, err error) {
 					// the block's root IS the reference commitment of the dictionary state: refusing it means juno computed another root
 					r.Violate("valid-block-rejected "+nm.Name+" "+label+exoticName(p, nm), map[string]any{"path": p.PathString(), "block": nm.Name, "err": err.Error()})
